@@ -45,7 +45,7 @@ def contents(n):
 def plan(tier, seed):
 	nmax = 4 if tier == 'quick' else 5
 	tasks = []
-	for kind in ('array', 'list', 'hdf5'):
+	for kind in ('array', 'list', 'hdf5', 'array-window', 'array-view', 'hdf5-view'):
 		for n in range(0, nmax + 1):
 			tasks.append(('t_index', dict(kind=kind, n=n)))
 	for kind in ('array', 'list', 'hdf5'):
@@ -65,8 +65,24 @@ class Coll:
 		from gambit.sigs.base import SignatureArray, SignatureList, dump_signatures, load_signatures
 		self.items = contents(self.n)
 		self.wd = None
+		pad = [np.array([11, 12, 13], dtype='u2'), np.array([], dtype='u2'), np.array([4095], dtype='u2')]
 		if self.kind == 'array':
 			self.obj = SignatureArray(self.items, kspec(), dtype=np.dtype('u2'))
+		elif self.kind == 'array-window':
+			# a zero-copy window onto a larger values array: bounds that do not start at zero
+			big = SignatureArray(pad + self.items + pad[:1], kspec(), dtype=np.dtype('u2'))
+			self.obj = SignatureArray.from_arrays(big.values, np.asarray(big.bounds)[3:3 + self.n + 1], kspec())
+		elif self.kind == 'array-view':
+			# a slice of a slice of a larger concatenated array
+			big = SignatureArray(pad + self.items + pad[:2], kspec(), dtype=np.dtype('u2'))
+			self.obj = big[1:][2:2 + self.n]
+		elif self.kind == 'hdf5-view':
+			self.wd = fixtures.workdir('c20')
+			d = self.wd.__enter__()
+			p = os.path.join(d, 's.gs')
+			dump_signatures(p, SignatureArray(pad + self.items + pad[:1], kspec(), dtype=np.dtype('u2')))
+			self.file = load_signatures(p)
+			self.obj = self.file[3:3 + self.n]
 		elif self.kind == 'list':
 			self.obj = SignatureList(self.items, kspec(), dtype=np.dtype('u2'))
 		else:
@@ -79,7 +95,7 @@ class Coll:
 
 	def __exit__(self, *a):
 		if self.wd is not None:
-			self.obj.close()
+			getattr(self, 'file', self.obj).close()
 			self.wd.__exit__(*a)
 
 
